@@ -48,6 +48,7 @@ type DagCase struct {
 	Settle      []bool     `json:"settle,omitempty"`   // hold the state briefly before the i-th release
 	CancelAfter int        `json:"cancel_after"`       // -1 never; cancel() after that many releases
 	Buffered    bool       `json:"buffered,omitempty"`
+	SinkFails   bool       `json:"sink_fails,omitempty"`    // the output writer returns an error on every write (fault injection)
 	TwoTaskObjs bool       `json:"two_task_objs,omitempty"` // re-adds use a second Task object with the same id
 }
 
@@ -204,9 +205,15 @@ func (r *Result) Has(prop string) *Violation {
 	return nil
 }
 
-type sink struct{ buf []byte }
+type sink struct {
+	buf   []byte
+	fails bool
+}
 
 func (s *sink) Write(p []byte) (int, error) {
+	if s.fails {
+		return 0, errors.New("injected output writer failure")
+	}
 	s.buf = append(s.buf, p...)
 	return len(p), nil
 }
@@ -428,7 +435,7 @@ func Execute(c *DagCase) *Result {
 	case "max":
 		g.SetMaxParallel(c.Max)
 	}
-	out := &sink{}
+	out := &sink{fails: c.SinkFails}
 	if c.Buffered {
 		g.SetOutputBuffer(out)
 	}
@@ -760,8 +767,11 @@ LOOP:
 	if !returned {
 		return res
 	}
-	r.checkResult(noTasks)
-	if c.Buffered && !noTasks {
+	if !(c.Buffered && c.SinkFails) {
+		// what Run reports when the caller's output writer fails is not fixed by the statements
+		r.checkResult(noTasks)
+	}
+	if c.Buffered && !noTasks && !c.SinkFails {
 		res.Output = string(out.buf)
 		r.checkOutput()
 	}
